@@ -1166,7 +1166,7 @@ package mqtt
 
 // ---- C15: housekeeping of disconnected sessions ----
 // verif:func mqtt.Clients.GetAll trusted
-//@ ensures r0 != nil && fresh(r0)
+//@ ensures r0 != nil && fresh(r0) && r0 != cl.internal
 //@ ensures forall k string :: (has(r0, k) <==> has(cl.internal, k)) && r0[k] == cl.internal[k] && (has(r0, k) ==> r0[k] != nil && r0[k].State.Inflight != nil && r0[k].State.Subscriptions != nil)
 // verif:func mqtt.Client.StopTime
 //@ ensures r0 == cl.State.disconnected
@@ -1179,4 +1179,4 @@ package mqtt
 //@ callsite mqtt.Clients.Delete C15-a-discarded-session-leaves-no-subscriptions-or-queued-messages: len(client.State.Inflight.internal) == 0 && len(client.State.Subscriptions.internal) == 0 && (!client.State.isTakenOver.abool ==> (forall f string :: !subsview[client.ID][f]))
 // verif:loop mqtt.Server.clearExpiredClients 1
 //@ invariant s.Clients != nil && s.Options != nil && s.Options.Capabilities != nil && s.hooks != nil
-//@ invariant forall k string :: has(rangemap1, k) ==> rangemap1[k] != nil && rangemap1[k].State.Inflight != nil && rangemap1[k].State.Subscriptions != nil
+//@ invariant rangemap1 != s.Clients.internal && (forall k string :: has(rangemap1, k) ==> rangemap1[k] != nil && rangemap1[k].State.Inflight != nil && rangemap1[k].State.Subscriptions != nil)
